@@ -10,7 +10,7 @@ from . import core, driver
 
 
 def _budget(ctx):
-    return int(os.environ.get("VK_BUDGET", "90" if ctx.quick else "600"))
+    return int(os.environ.get("VK_BUDGET", "180" if ctx.quick else "600"))
 
 
 def run_property(mod, ctx, only=None, do_hunt=True):
